@@ -43,6 +43,7 @@ type Op struct {
 	Task int `json:"task,omitempty"` // which sender/receiver task
 	A    int `json:"a,omitempty"`
 	N    int `json:"n,omitempty"`
+	ID   int `json:"id,omitempty"`
 }
 
 type Plan struct {
@@ -117,6 +118,7 @@ func Generate(r *rand.Rand, profile string, concurrent bool, avoid map[string]bo
 		if concurrent {
 			o.N = r.IntN(8)
 		}
+		o.ID = i + 1
 		p.Ops = append(p.Ops, o)
 	}
 	return p
@@ -199,6 +201,8 @@ type sim struct {
 	sendSeq         int
 	keyCtx          struct{}
 	nBlocks, nFails int
+	hintOp          int
+	hintN           uint64
 }
 
 type pendingOp struct {
@@ -270,6 +274,7 @@ func (s *sim) op(kind string, task int, msg interface{}, fn func() error) *pendi
 	po := &pendingOp{id: s.nextOp, kind: kind, task: task, msg: msg, issuedBeforeCreate: s.created == 0}
 	s.nextOp++
 	s.pending[po.id] = po
+	s.hint()
 	po.t = s.k.Spawn(fmt.Sprintf("%s#%d", kind, po.id), 10+task, &taskTag{id: task}, func() {
 		defer func() {
 			if r := recover(); r != nil {
@@ -660,6 +665,24 @@ func (s *sim) finish() {
 	s.res.Count("fault:stream_creation_blocks", s.nBlocks)
 	s.res.Count("fault:stream_creation_fails", s.nFails)
 	s.res.States = append(s.res.States, uint64(s.created)<<8|uint64(s.attempts)<<4|uint64(len(s.reached)))
+}
+
+// hint gives the next spawned task a schedule-independent key derived from the
+// current operation's stable id, so that recorded scheduling decisions survive
+// the removal of other operations during shrinking.
+//
+//go:norace
+//go:norace
+func (s *sim) hint() {
+	id := uint64(1000000 + s.opIdx + 1)
+	if s.opIdx >= 0 && s.opIdx < len(s.plan.Ops) && s.plan.Ops[s.opIdx].ID != 0 {
+		id = uint64(s.plan.Ops[s.opIdx].ID)
+	}
+	if s.hintOp != s.opIdx {
+		s.hintOp, s.hintN = s.opIdx, 0
+	}
+	s.hintN++
+	s.k.KeyHint = kern.MixKey(id, s.hintN)
 }
 
 //go:norace
